@@ -126,7 +126,11 @@ class BlockingAsyncRule(BaseLintRule):
         """
         if self._config_override is not None:
             return self._config_override
-        return load_linter_config(context, "blocking-async", BlockingAsyncConfig)
+        # The config loader normalises top-level section names to underscores;
+        # keep the hyphenated key for directly injected metadata.
+        metadata = getattr(context, "metadata", None) or {}
+        config_key = "blocking_async" if "blocking_async" in metadata else "blocking-async"
+        return load_linter_config(context, config_key, BlockingAsyncConfig)
 
     def _build_violations(
         self,
